@@ -172,6 +172,8 @@ def run_case(rng, ctx):
     if n < 2:
         return
     layers, arity = im.model_of(d)
+    from verif.models import struct as _struct
+    key_before = repr(_struct.key(d))
     width = max([len(d.dom)] + [len(left) + len(box.cod) + len(right)
                                 for left, box, right in d.layers])
     dims = (2, 3) if width <= 5 else (2,)
@@ -224,6 +226,10 @@ def run_case(rng, ctx):
         if same is not None:
             ctx.expect("denotation-preserved", same, kind="after a random walk",
                        diagram=lambda: safe_repr(d), result=lambda: safe_repr(cur))
+    from verif.models import struct
+    ctx.expect("operands-unchanged",
+               im.model_of(d)[0] == layers and repr(struct.key(d)) == key_before,
+               diagram=lambda: safe_repr(d), offsets=lambda: d.offsets)
     if moved and refused:
         ctx.mark(kit.name + safe_repr(d, 600))
     if ctx.index < 30:
